@@ -1234,13 +1234,28 @@ impl<'a> Exchange<'a> {
         // counter value replayed. Writes happen once per
         // `GROUP_DATA_CTR_EPOCH` messages, not per message.
         if let Some(boundary) = boundary {
-            kv.access(|store, buf| {
+            let stored = kv.access(|store, buf| {
                 store.store(
                     crate::persist::GROUP_DATA_COUNTER_KEY,
                     &boundary.to_le_bytes(),
                     buf,
                 )
-            })?;
+            });
+
+            if let Err(e) = stored {
+                // The moved boundary did not become durable, and the reserved
+                // value was not used: undo the reservation, so that the next
+                // one hands the value out again and demands the store again.
+                // Otherwise later values would go on the wire without any
+                // durable boundary covering them, and be reused after a restart.
+                matter.with_state(|state| {
+                    state
+                        .sessions
+                        .resume_global_group_data_ctr(group_data_ctr)
+                });
+
+                return Err(e);
+            }
 
             debug!(
                 "Group data message counter boundary persisted: {}",
